@@ -51,19 +51,19 @@ def run(c):
          dominate=False, desc="PMMR::validate: a parent whose hash differs from hash_with_index((left, right), its position) is rejected")
     # Merkle proof verification
     vc = M + "verify_consume"
-    c.r2("proof-root-equality", vc, cond=r"^PartialEq::eq\(arg1, phi\(PMMRIndexHashable::hash_with_index\(arg2, ", err="RootMismatch", fail_on=False, dominate=False,
+    c.r2("proof-root-equality", vc, cond=r"^PartialEq::eq\(arg1, (phi\()?PMMRIndexHashable::hash_with_index\(arg2, ", err="RootMismatch", fail_on=False, dominate=False,
          desc="verify_consume: with the path exhausted the supplied root must equal the reconstructed hash, else RootMismatch")
-    c.r1("proof-ok-only-via-equality", vc, M + "verify", via=0, extra_cuts=c.true_edges(vc, r"^PartialEq::eq\(arg1, phi\(PMMRIndexHashable::hash_with_index\(arg2, "),
+    c.r1("proof-ok-only-via-equality", vc, M + "verify", via=0, extra_cuts=c.true_edges(vc, r"^PartialEq::eq\(arg1, (phi\()?PMMRIndexHashable::hash_with_index\(arg2, "),
          desc="verify_consume: Ok is returned only through the root-equality test or through the verdict of the recursive step")
     c.r1("proof-consumes-path", vc, "re:alloc::vec::Vec::remove$", sink=M + "verify", via=0, called_only=True,
          desc="verify_consume: every recursive step has consumed one path hash")
     c.r1("proof-empty-path-stops", vc, "re:alloc::vec::Vec::is_empty$", sink="re:alloc::vec::Vec::remove$", via=0, truth=False,
          desc="verify_consume: a path hash is taken only when the path is not empty (no panic on a short proof)")
-    c.r2_arg("proof-step-root", vc, M + "verify", 1, must=["arg1"], floor=3, desc="verify_consume recurses with the same root")
-    c.r2_arg("proof-step-position", vc, M + "verify", 3, must=["call:pmmr::family", "arg3"], floor=3, desc="verify_consume recurses on the parent position given by pmmr::family")
-    c.r2_arg("proof-step-element", vc, M + "verify", 2, must=["call:Vec::remove", "call:PMMRIndexHashable::hash_with_index"], floor=3,
+    c.r2_arg("proof-step-root", vc, M + "verify", 1, must=["arg1"], floor=1, desc="verify_consume recurses with the same root")
+    c.r2_arg("proof-step-position", vc, M + "verify", 3, must=["call:pmmr::family", "arg3"], floor=1, desc="verify_consume recurses on the parent position given by pmmr::family")
+    c.r2_arg("proof-step-element", vc, M + "verify", 2, must=["call:Vec::remove", "call:PMMRIndexHashable::hash_with_index"], floor=1,
              desc="verify_consume recurses on the pair built from the consumed sibling and the node hash")
-    c.r2_arg("proof-node-hash-element", vc, HWI, 0, must=["arg2"], floor=2, desc="the node hash is taken over the supplied element")
+    c.r2_arg("proof-node-hash-element", vc, HWI, 0, must=["arg2"], floor=1, desc="the node hash is taken over the supplied element")
     c.r2("proof-left-right-order", vc, cond=r"^pmmr::is_left_sibling\(pmmr::family\(arg3\)\.1\)$", dominate=False, fail_on=True, sink="return",
          desc="verify_consume orders (sibling, node) by is_left_sibling of the sibling position") if False else None
     vf = M + "verify"
